@@ -17,18 +17,49 @@ structure WInv (s : Sys) : Prop where
   j1 : s.reg = true → s.wakeAfterSet = true → s.woken = true ∨ 1 ≤ s.wv.atm COND
   j7 : s.wakeAfterSet = true ∨ pend s.isSet s.nprog = true
   j8 : s.wstat = .parked → s.reg = true ∧ s.wv.atm COND = 0
-  j9 : (s.wprog = [.check, .register, .check] ∧ s.wstat = .running) ∨
-       (s.wprog = [.register, .check] ∧ s.wstat = .running) ∨
-       (s.wprog = [.check] ∧ s.reg = true ∧ s.wstat = .running) ∨
+  j9 : (∃ a b, s.wprog = List.replicate a .check ++ .register :: List.replicate (b + 1) .check ∧ s.wstat = .running) ∨
+       (∃ b, s.wprog = List.replicate (b + 1) .check ∧ s.reg = true ∧ s.wstat = .running) ∨
        (s.wprog = [] ∧ s.wstat ≠ .running)
+
+/-- the waiter programs covered: `a` checks, one register, then at least one more check -/
+def waiterShape (a b : Nat) : List WAct := List.replicate a .check ++ .register :: List.replicate (b + 1) .check
+
+theorem waiterPinned_shape : waiterPinned = waiterShape 1 0 := rfl
+
+theorem j9_check {s : Sys} {rest : List WAct} (inv : WInv s) (hprog : s.wprog = .check :: rest) :
+    (∃ a b, rest = List.replicate a .check ++ .register :: List.replicate (b + 1) .check) ∨
+    (s.reg = true ∧ ∃ b, rest = List.replicate b .check) := by
+  rcases inv.j9 with ⟨a, b, h1, _⟩ | ⟨b, h1, h2, _⟩ | ⟨h1, _⟩
+  · rw [hprog] at h1
+    cases a with
+    | zero => simp at h1
+    | succ a => simp [List.replicate_succ] at h1; exact .inl ⟨a, b, h1⟩
+  · rw [hprog] at h1
+    simp [List.replicate_succ] at h1
+    exact .inr ⟨h2, b, h1⟩
+  · rw [hprog] at h1; simp at h1
+
+theorem j9_register {s : Sys} {rest : List WAct} (inv : WInv s) (hprog : s.wprog = .register :: rest) :
+    ∃ b, rest = List.replicate (b + 1) .check := by
+  rcases inv.j9 with ⟨a, b, h1, _⟩ | ⟨b, h1, h2, _⟩ | ⟨h1, _⟩
+  · rw [hprog] at h1
+    cases a with
+    | zero => simp at h1; exact ⟨b, h1⟩
+    | succ a => simp [List.replicate_succ] at h1
+  · rw [hprog] at h1; simp [List.replicate_succ] at h1
+  · rw [hprog] at h1; simp at h1
 
 theorem afterLoad_atm_self_eq (V : View) (o : Ord) (l : Nat) (x : Msg) :
     (afterLoad V o l x).atm l = if o.isAcq then max x.ts (x.view.atm l) else x.ts := by
   unfold afterLoad
   split <;> simp [View.join, View.setAtm]
 
-theorem winv_init {np : List NAct} (h : pend false np = true) : WInv (init waiterPinned np) := by
-  constructor <;> simp [init, waiterPinned, Mem.init, View.bot, h]
+theorem winv_init_shape {np : List NAct} (a b : Nat) (h : pend false np = true) : WInv (init (waiterShape a b) np) := by
+  constructor <;> simp [init, waiterShape, Mem.init, View.bot, h]
+  exact ⟨a, b, rfl⟩
+
+theorem winv_init {np : List NAct} (h : pend false np = true) : WInv (init waiterPinned np) :=
+  winv_init_shape 1 0 h
 
 theorem pend_set (b : Bool) (r : List NAct) : pend b (.set :: r) = pend true r := by
   cases b <;> rfl
@@ -60,7 +91,7 @@ theorem winv_step {oS oL : Ord} {s s' : Sys} {a : Act} (inv : WInv s) (h : step 
           · right; have := afterLoad_atm_ge s.wv oL COND m hts COND; dsimp only; omega
         · exact inv.j7
         · intro hp; simp at hp
-        · right; right; right; simp
+        · right; right; simp
       · -- not ready
         rename_i hv
         have hv0 : m.val = 0 := by simpa using hv
@@ -82,18 +113,15 @@ theorem winv_step {oS oL : Ord} {s s' : Sys} {a : Act} (inv : WInv s) (h : step 
         · exact inv.j7
         · intro hp
           dsimp only at hp ⊢
-          refine ⟨?_, hnew⟩
-          rcases inv.j9 with ⟨h1, _⟩ | ⟨h1, _⟩ | ⟨h1, h2, _⟩ | ⟨h1, _⟩
-          · rw [hprog] at h1; simp at h1; subst h1; simp at hp
-          · rw [hprog] at h1; simp at h1
-          · exact h2
-          · rw [hprog] at h1; simp at h1
+          rcases j9_check inv hprog with ⟨a, b, hr⟩ | ⟨hreg, b, hr⟩
+          · subst hr; simp at hp
+          · exact ⟨hreg, hnew⟩
         · dsimp only
-          rcases inv.j9 with ⟨h1, _⟩ | ⟨h1, _⟩ | ⟨h1, h2, _⟩ | ⟨h1, _⟩
-          · rw [hprog] at h1; simp at h1; subst h1; right; left; simp
-          · rw [hprog] at h1; simp at h1
-          · rw [hprog] at h1; simp at h1; subst h1; right; right; right; simp
-          · rw [hprog] at h1; simp at h1
+          rcases j9_check inv hprog with ⟨a, b, hr⟩ | ⟨hreg, b, hr⟩
+          · subst hr; left; exact ⟨a, b, rfl, by simp⟩
+          · cases b with
+            | zero => subst hr; right; right; simp
+            | succ b => subst hr; right; left; exact ⟨b, rfl, hreg, by simp⟩
     · -- register
       rename_i rest hst hprog
       split at h
@@ -119,17 +147,11 @@ theorem winv_step {oS oL : Ord} {s s' : Sys} {a : Act} (inv : WInv s) (h : step 
       · exact inv.j7
       · intro hp
         dsimp only at hp
-        rcases inv.j9 with ⟨h1, _⟩ | ⟨h1, _⟩ | ⟨h1, h2, _⟩ | ⟨h1, _⟩
-        · rw [hprog] at h1; simp at h1
-        · rw [hprog] at h1; simp at h1; subst h1; simp at hp
-        · rw [hprog] at h1; simp at h1
-        · rw [hprog] at h1; simp at h1
+        obtain ⟨b, hr⟩ := j9_register inv hprog
+        subst hr; simp at hp
       · dsimp only
-        rcases inv.j9 with ⟨h1, _⟩ | ⟨h1, _⟩ | ⟨h1, h2, _⟩ | ⟨h1, _⟩
-        · rw [hprog] at h1; simp at h1
-        · rw [hprog] at h1; simp at h1; subst h1; right; right; left; simp
-        · rw [hprog] at h1; simp at h1
-        · rw [hprog] at h1; simp at h1
+        obtain ⟨b, hr⟩ := j9_register inv hprog
+        subst hr; right; left; exact ⟨b, rfl, rfl, by simp⟩
     · simp at h
   | n =>
     simp only [step] at h
